@@ -271,6 +271,22 @@ def run(tier, seed, replay=None):
             continue
         if (ea == ea) is not True:
             res.violation(dict(payload, kind="oracle", what="== is not reflexive"))
+        # "replacing an element by a reference to an equal definition": b offered as a caller definition next to a tree holding a -
+        # a is replaced by the reference exactly when a == b (no sub-element of a can equal the whole of b's tree)
+        from statham.schema.elements.meta import ObjectMeta as _OM
+        from statham.schema.elements import Array as _Array, Nothing as _Nothing
+        if not isinstance(ea, _OM) and not isinstance(eb, _OM) and not isinstance(ea, _Nothing):
+            try:
+                Jd = serialize_json(_Array(ea), definitions={"d": eb})
+                refd = Jd.get("items") == {"$ref": "#/definitions/d"}
+                stats["definition_offers"] = stats.get("definition_offers", 0) + 1
+                if refd != (ab is True):
+                    res.violation(dict(payload, kind="oracle", document=Jd,
+                                       what="a == b is %r, yet serialize_json(Array(a), definitions={'d': b}) %s a by a reference to d"
+                                            % (ab, "replaces" if refd else "does not replace")))
+                    continue
+            except BaseException:  # noqa   (serializer defects are C03's subject)
+                pass
         if kind in ("copy",) or "equal expected" in kind:
             stats["copies"] += 1
             if ab is not True:
